@@ -5,13 +5,13 @@ import "time"
 func init() {
 	registry = append(registry, property{id: "C10", parts: []part{
 		{name: "mem", pkg: "./c10", run: "^TestMemLinearizable$",
-			shards: [2]int{6, 12}, checks: [2]int{300, 4000}, timeout: [2]time.Duration{12 * min, 30 * min},
+			shards: [2]int{6, 12}, checks: [2]int{300, 4000}, timeout: [2]time.Duration{12 * min, 60 * min},
 			env: [2][]string{{"VERIF_REPS=8"}, {"VERIF_REPS=12"}}},
 		{name: "file", pkg: "./c10", run: "^TestFileOrdering$",
-			shards: [2]int{4, 8}, checks: [2]int{250, 3000}, timeout: [2]time.Duration{12 * min, 30 * min},
+			shards: [2]int{4, 8}, checks: [2]int{250, 3000}, timeout: [2]time.Duration{12 * min, 60 * min},
 			env: [2][]string{{"VERIF_REPS=4"}, {"VERIF_REPS=6"}}},
 		{name: "race", pkg: "./c10", run: "^TestRace$", bins: []string{"diskchild-race"},
-			shards: [2]int{6, 12}, checks: [2]int{8, 150}, timeout: [2]time.Duration{12 * min, 30 * min},
+			shards: [2]int{6, 12}, checks: [2]int{8, 150}, timeout: [2]time.Duration{12 * min, 60 * min},
 			env: [2][]string{{"VERIF_BATCH=8", "VERIF_RACE_REPS=3"}, {"VERIF_BATCH=10", "VERIF_RACE_REPS=4"}}},
 	}})
 }
